@@ -87,6 +87,14 @@ def main(argv=None):
             if hasattr(mod, "run_once"):
                 mod.run_once(ctx, args.tier, seed)
             mod.run(ctx, args.tier, core.shard_seed(seed, 0) if args.tier == "thorough" else seed, 0, 1)
+        fz = getattr(mod, "FUZZ", {}).get(args.tier)
+        if fz:
+            if core.fuzz_available():
+                for d in core.run_fuzz(prop, seed, fz[0], fz[1]):
+                    ctx.merge(d)
+                ctx.extra["atheris_campaigns"] = fz[0]
+            else:
+                ctx.notes.append("coverage-guided stage skipped: atheris is not installed under .deps (setup.sh installs it)")
 
         violations, known = classify(ctx, mod, active)
         for fid, n in known.items():
